@@ -197,6 +197,15 @@ def run_reassembly(item, rec):
                     case = dict(inputs=list(inputs), output=output, size=size, cfg=[list(x) for x in cfg], ssa=[list(p) for p in ssa])
 
                     def harness(ctx, cfg=cfg, ssa=ssa, case=case, size=size, arrays=arrays):
+                        try:
+                            return harness_body(ctx, cfg, ssa, case, size, arrays)
+                        except (symx.PathAbort, symx.Unsupported, symx.Budget):
+                            raise
+                        except Exception as e:  # noqa -- the real slicing / gathering code raised
+                            rec.refute(ctx, True, "slicing machinery raised", lambda m: dict(case=case, proj={}, arrays=[a.tolist() for a in symarr.model_arrays(m, arrays)], which="contract",
+                                                                                             error=repr(e), signature=["C06b", list(inputs), output, case["cfg"], "raise", type(e).__name__]))
+
+                    def harness_body(ctx, cfg, ssa, case, size, arrays):
                         proj = {ix: symx.sym_int("p_" + ix, 0, size[ix] - 1) for ix, m in cfg if m == "p"}
                         tree = build_tree(inputs, output, size, ssa, cfg, proj)
                         # projected values are concretised when used to index (forks over range)
